@@ -6,7 +6,8 @@ home, in its own session (the parent kills the whole process group afterwards).
 
 argv[1] = JSON spec
     {"names": [...], "wait": bool, "cycles": k, "program": "sdk"|"pb"|"none",
-     "epr": bool, "tmp": dir, "stop_early": [cycle numbers in which stop() follows start() at once]}
+     "epr": bool, "tmp": dir, "stop_early": [cycle numbers in which stop() follows start() at once],
+     "double_start": [cycle numbers in which start() is called a second time on the running network]}
 stdout  = one JSON observation per line, each {"ev": ..., ...}; the parent is
 the judge, nothing is decided here.
 
@@ -14,6 +15,10 @@ The script only uses public entry points of the code under test: the settings
 object, `Network(...)`, `.start()`, `.running`, `.stop()`, `.processes`,
 `SimulaQronConnection`, and Perspective-Broker calls to the virtual nodes
 (`check_connections`, `new_qubit`, `apply_X`, `measure`) over real TCP.
+
+Processes are observed through `multiprocessing.active_children()` -- EVERY live
+child process of this interpreter, whether or not `Network.processes` still
+lists it -- besides `Network.processes` itself.
 """
 import json
 import os
@@ -216,6 +221,17 @@ def main():
             res.setdefault(me, ("err", "timeout after 30 s"))
         return res
 
+    import multiprocessing
+
+    ever = {}        # pid -> name of every child process ever seen alive
+
+    def children():
+        """[[name, pid]] of every live child process of this interpreter (sorted), remembered in `ever`"""
+        cs = sorted([p.name, p.pid] for p in multiprocessing.active_children())
+        for nm, pid in cs:
+            ever[pid] = nm
+        return cs
+
     net = Network(name="default", network_config_file=fn, new=False)
     out("network", nodes=list(net.nodes), nproc=len(net.processes))
     pids_seen = []
@@ -235,9 +251,21 @@ def main():
             alive = [p.is_alive() for p in net.processes]
             pids = [p.pid for p in net.processes]
             pids_seen += [p for p in pids if p]
-            out("started", cycle=cyc, wait=wait, exc=exc, running=running0, alive=alive, pids=pids)
+            out("started", cycle=cyc, wait=wait, exc=exc, running=running0, alive=alive, pids=pids, children=children())
             if exc is not None:
                 break
+            if cyc in (spec.get("double_start") or []):
+                # start() on the network that is already running: must leave every process alone
+                try:
+                    net.start(wait_until_running=False)
+                    exc2 = None
+                except BaseException as e:
+                    exc2 = type(e).__name__ + ": " + str(e)[:200]
+                time.sleep(0.2)
+                pids2 = [p.pid for p in net.processes]
+                pids_seen += [p for p in pids2 if p]
+                out("restarted", cycle=cyc, exc=exc2, alive=[p.is_alive() for p in net.processes], pids=pids2,
+                    pids_before=pids, children=children())
             if cyc in (spec.get("stop_early") or []):
                 # stop at once, while the processes are still coming up
                 pass
@@ -280,15 +308,23 @@ def main():
                 except OSError:
                     gone.append(True)
             ps = {n: {"qnodeos": port_state(qport[n]), "vnode": port_state(vport[n])} for n in names}
+            left = children()
+            ever_alive = []
+            for pid, nm in sorted(ever.items()):
+                try:
+                    os.kill(pid, 0)
+                    ever_alive.append([nm, pid])
+                except OSError:
+                    pass
             out("stopped", cycle=cyc, exc=exc, took=round(time.time() - t1, 2), alive=alive, pid_gone=gone,
                 exitcodes=[p.exitcode for p in procs], ports=ps,
-                alive_now=[p.is_alive() for p in net.processes])
+                alive_now=[p.is_alive() for p in net.processes], children=left, ever_alive=ever_alive)
     finally:
         try:
             net.stop()
         except BaseException as e:
             out("final-stop-raised", exc=type(e).__name__)
-        for pid in pids_seen:
+        for pid in pids_seen + list(ever):
             try:
                 os.kill(pid, 9)
             except OSError:
